@@ -495,9 +495,13 @@ def _gen_register_writes(prog, T, f, table, memo, depth=0):
     for e in T.evs(f).values():
         if e.kind == "push":
             out |= set(table.get(e.instr, (set(), set("abcd")))[1]) if e.instr else set("abcd")
+        elif e.kind == "EXPR" and common.evaluates_for_counter(prog, T, f, e):
+            out |= {"a"}
         elif e.kind in ("EXPR", "BLOCK", "STMT"):
             out |= set("abcd")
         elif e.kind == "gen" and e.callee is not None:
+            if e.callee.name.startswith("generate_store") and common.evaluates_for_counter(prog, T, f, e):
+                continue
             out |= _gen_register_writes(prog, T, e.callee, table, memo, depth + 1) if depth < 6 else set("abcd")
     memo[f.id] = out
     return out
@@ -535,12 +539,15 @@ def _register_terms(prog, T, f, table, entry):
                         regs[w] = val
             elif e.kind == "EXPR":
                 regs["a"] = ("EXPR", e.line)
-                for r in "bcd":
-                    regs[r] = ("after-EXPR", e.line)
+                if not common.evaluates_for_counter(prog, T, f, e):
+                    for r in "bcd":
+                        regs[r] = ("after-EXPR", e.line)
             elif e.kind in ("BLOCK", "STMT"):
                 if not frames:
                     regs = {r: ("after-user-code", e.line) for r in "abcd"}
             elif e.kind == "gen" and e.callee is not None:
+                if e.callee.name.startswith("generate_store") and common.evaluates_for_counter(prog, T, f, e):
+                    continue
                 for w in _gen_register_writes(prog, T, e.callee, table, memo):
                     regs[w] = ("gen", e.callee.name)
 
